@@ -1215,7 +1215,9 @@ func splitIntoSentences(text string) []string {
 				str := current.String()
 				if len(str) >= 2 {
 					prevChar := rune(str[len(str)-2])
-					if unicode.IsUpper(prevChar) && (i < 2 || unicode.IsSpace(rune(str[len(str)-3]))) {
+					// (the capital may also be the first character collected
+					// since the last sentence end: nothing stands before it)
+					if unicode.IsUpper(prevChar) && (i < 2 || len(str) < 3 || unicode.IsSpace(rune(str[len(str)-3]))) {
 						continue
 					}
 				}
